@@ -195,7 +195,7 @@ func init() {
 			return
 		}
 		enveloped := p.Client.Enveloped()
-		kind := c.Free("fault", 6)
+		kind := c.Free("fault", 7)
 		var mutated []byte
 		var failAt = -1
 		var failErr error
@@ -292,8 +292,29 @@ func init() {
 				desc = "content-length*2"
 			}
 			inside = true
+		case 6: // one more message begun after the complete request: every proper prefix of a further frame
+			if !enveloped {
+				c.Skip()
+				return
+			}
+			offs := frameOffsets(b.reqBody)
+			end := n
+			if len(offs) > 1 {
+				end = offs[1]
+			}
+			frame := b.reqBody[offs[0]:end]
+			k := 1 + c.Free("extra-bytes", len(frame)-1)
+			mutated = append(append([]byte(nil), b.reqBody...), frame[:k]...)
+			desc = fmt.Sprintf("complete request + %d of %d bytes of a further frame", k, len(frame))
+			if c.Free("then", 2) == 1 {
+				failAt, failErr = len(mutated), io.ErrUnexpectedEOF
+				desc += " + ErrUnexpectedEOF"
+			} else {
+				desc += " + EOF"
+			}
+			inside = true
 		}
-		c.Attr("fault", []string{"cut-error", "cut-eof", "flag", "length", "bitflip", "content-length"}[kind])
+		c.Attr("fault", []string{"cut-error", "cut-eof", "flag", "length", "bitflip", "content-length", "further-frame-cut"}[kind])
 		c.Attr("~detail", desc)
 		var specCopy *drive.ReqSpec
 		v := p.run(runOpts{Responder: p.strictResponder(nil), Spec: func(s *drive.ReqSpec) {
